@@ -169,6 +169,8 @@ structure Call (K : Type) where
   axisLen : Option Nat := none
   /-- NumPy's own refusal of the stripped call (the kernel is a parameter of the model) -/
   kernelErr : Option Err := none
+  /-- shape of what NumPy's kernel returns for the stripped call (read by the wrap-up only) -/
+  kernelShape : List Nat := []
   /-- keyword operands that `__array_ufunc__` forwards to NumPy without looking at them
       (`initial=`, `where=`): they cannot influence the outcome -/
   extra : List (String × Operand K) := []
@@ -422,13 +424,23 @@ def powerMapUnit (T : Tables) (f : String) (u : UnitV K) (n : Nat) : Except Err 
   | none => .error .KeyError
   | some (_, f0, f1) => u.pow (ratOfInt (f0 + (f1 - f0) * (n : Int)))
 
-/-- wrap-up shared by all paths: label the outputs, return -/
-def wrapUp (eff : List (Effect K)) (c : Call K) (mul : K) (unit : Option (UnitV K))
-    (factor : Option K) (fsz : Option Nat) : Run K :=
-  let fin := finishOut (mul == 1) unit c.out
-  match fin.2 with
-  | some e => ⟨eff ++ fin.1, .error e⟩
-  | none => ⟨eff ++ fin.1, .ok { unit := unit, factor := factor, factorItemsize := fsz, mul := mul }⟩
+/-- array.py:2014-2029: the result is wrapped in `ret_class`; when neither input is a
+    `unyt_array` (`_get_binary_op_return_class` then answers `list`, `float`, `ndarray`, …) that
+    constructor call fails — after the kernel has run -/
+def wrapClassFails (T : Tables) (c : Call K) (retPlain : Bool) (unit : Option (UnitV K)) : Bool :=
+  retPlain && unit.isSome &&
+    (c.ufunc == T.modfName || c.ufunc == T.divmodName
+      || (c.kernelShape != [] && c.kernelShape.foldl (· * ·) 1 != 1))
+
+/-- wrap-up shared by all paths: wrap the result, label the outputs, return -/
+def wrapUp (T : Tables) (eff : List (Effect K)) (c : Call K) (retPlain : Bool) (mul : K)
+    (unit : Option (UnitV K)) (factor : Option K) (fsz : Option Nat) : Run K :=
+  if wrapClassFails T c retPlain unit then ⟨eff, .error .TypeError⟩
+  else
+    let fin := finishOut (mul == 1) unit c.out
+    match fin.2 with
+    | some e => ⟨eff ++ fin.1, .error e⟩
+    | none => ⟨eff ++ fin.1, .ok { unit := unit, factor := factor, factorItemsize := fsz, mul := mul }⟩
 
 /-- array.py:1824-1840 -/
 def unaryPath (C : Ctx K) (c : Call K) (inp : Operand K) (eff0 : List (Effect K)) : Run K :=
@@ -463,7 +475,7 @@ def unaryPath (C : Ctx K) (c : Call K) (inp : Operand K) (eff0 : List (Effect K)
             | some r => applyRule1 C r u
         match ru with
         | .error e => ⟨eff1, .error e⟩
-        | .ok (mul, unit) => wrapUp eff1 c mul unit factor none
+        | .ok (mul, unit) => wrapUp C.T eff1 c false mul unit factor none
 
 /-- array.py:1955-1968: rescaling of the second operand -/
 def convertSecond (C : Ctx K) (u0 u1 : UnitR K) (d1 : Data) : Except Err (K × Nat) :=
@@ -508,9 +520,13 @@ def stdBinary (C : Ctx K) (c : Call K) (rule : Rule) (i0 i1 : Operand K)
         | .none => []
         | .one o => .writeOut 0 :: (if o.isUnyt then [.setOutUnits 0 (UnitR.null : UnitR K).v] else [])
         | .many _ => []
+      -- `ret = func(np.asarray(inp1), dtype=bool)` has the shape of the *second* operand
       match c.out with
       | .many _ => ⟨eff0, .error .TypeError⟩      -- tuple has no slice assignment
-      | _ => ⟨eff0 ++ eff, .ok { unit := none, mul := 1, early := some b }⟩
+      | .one _ =>
+        if i1.data.shape == [] then ⟨eff0, .error .Other⟩   -- `ret[:]` on a 0-d array: IndexError
+        else ⟨eff0 ++ eff, .ok { unit := none, mul := 1, early := some b }⟩
+      | .none => ⟨eff0, .ok { unit := none, mul := 1, early := some b }⟩
     | .pass u0 u1 conv =>
       let cv : Except Err (Option (K × Nat)) :=
         if conv then (convertSecond C u0 u1 i1.data).map some else .ok none
@@ -526,7 +542,8 @@ def stdBinary (C : Ctx K) (c : Call K) (rule : Rule) (i0 i1 : Operand K)
             let eff1 := eff0 ++ kernelWrites c.out
             match mulDivPost rule u0 u1 mul unit with
             | .error e => ⟨eff1, .error e⟩
-            | .ok (mul, unit) => wrapUp eff1 c mul unit (cvo.map (·.1)) (cvo.map (·.2))
+            | .ok (mul, unit) =>
+              wrapUp C.T eff1 c (!(i0.isUnyt) && !(i1.isUnyt)) mul unit (cvo.map (·.1)) (cvo.map (·.2))
 
 /-- array.py:1863-1890: `power` reads its exponent from the second operand -/
 def powerPath (C : Ctx K) (c : Call K) (i0 i1 : Operand K) (u0r c1 : Option (UnitR K))
@@ -558,7 +575,7 @@ def powerPath (C : Ctx K) (c : Call K) (i0 i1 : Operand K) (u0r c1 : Option (Uni
       | .ok (mul, unit) =>
         match c.kernelErr with
         | some e => ⟨eff0, .error e⟩
-        | none => wrapUp (eff0 ++ kernelWrites c.out) c mul unit none none
+        | none => wrapUp C.T (eff0 ++ kernelWrites c.out) c (!(i0.isUnyt) && !(i1.isUnyt)) mul unit none none
 
 /-- array.py:1841-1992 -/
 def binaryPath (C : Ctx K) (c : Call K) (i0 i1 : Operand K) (eff0 : List (Effect K)) : Run K :=
@@ -586,7 +603,7 @@ def clipPath (C : Ctx K) (c : Call K) (eff0 : List (Effect K)) : Run K :=
     if bad then ⟨eff0, .error .UnitConversionError⟩
     else match c.kernelErr with
       | some e => ⟨eff0, .error e⟩
-      | none => wrapUp (eff0 ++ kernelWrites c.out) c 1 (some u0.v) none none
+      | none => wrapUp C.T (eff0 ++ kernelWrites c.out) c false 1 (some u0.v) none none
   | _ => ⟨eff0, .error .Other⟩
 
 /-- `unyt_array.__array_ufunc__` -/
@@ -598,6 +615,14 @@ def dispatch (C : Ctx K) (c : Call K) : Run K :=
   | _ =>
     if C.T.clipIsUfunc && c.ufunc == C.T.clipName then clipPath C c eff0
     else ⟨eff0, .error .RuntimeError⟩
+
+/-- `unyt_array.__eq__` / `__ne__` (array.py:1782-1792): the operator forms turn
+    `IterableUnitCoercionError` and `UnitOperationError` of the ufunc into all-False / all-True -/
+def eqNeOperator (isNe : Bool) (r : Run K) : Run K :=
+  match r.result with
+  | .error .IterableUnitCoercionError => ⟨r.effects, .ok { unit := none, mul := 1, early := some isNe }⟩
+  | .error .UnitOperationError => ⟨r.effects, .ok { unit := none, mul := 1, early := some isNe }⟩
+  | _ => r
 
 end
 
